@@ -362,3 +362,24 @@ for _k, _v in {
     'C20': ' clip from the command line in 14 process environments.',
 }.items():
     ADDENDA[_k] = ADDENDA.get(_k, '') + _v
+
+# round 12
+for _k, _v in {
+    'C02': ' The deprecated spatial index is compared in the replay.',
+    'C03': ' Transposed mesh tables; coordinate variables not named after their dimensions.',
+    'C04': ' Rotated-pole look-alike axes and a second mesh through autodetection.',
+    'C05': ' Axes stored north to south; 2-D bounds stored (x, y, 4).',
+    'C07': " The file's own edge numbering is the reference; a transposed edge table numbered in reverse.",
+    'C09': ' A size-two dimension called nv next to a length-two time dimension.',
+    'C10': ' Implied edge dimensions from a single edge table.',
+    'C11': ' A copy with another convention bound by hand is detected by its content.',
+    'C12': " SHOC simple / standard through the conventions' own depth coordinate lookup (coordinate or plain variable).",
+    'C13': ' SHOC simple through the alias; one marker only with a guessed sign.',
+    'C14': ' Stored 1-D bounds with gaps; 2-D bounds stored (x, y, 4).',
+    'C16': ' Two Unicode spellings of a name; a mesh stored transposed with every optional table.',
+    'C17': ' A SHOC standard file opened without decoding times; a duration variable.',
+    'C18': ' Variables stored (x, y, depth) and column-major; a curvilinear grid with misordered bounds.',
+    'C19': ' An array derived from a dataset variable (same name, other values); caller-named coordinates.',
+    'C20': ' A static file and a no-leap calendar among the command-line datasets.',
+}.items():
+    ADDENDA[_k] = ADDENDA.get(_k, '') + _v
